@@ -323,8 +323,9 @@ func (b *defaultBinder) Bind(req *protocol.Request, v interface{}, params param.
 // best effort binding
 func (b *defaultBinder) preBindBody(req *protocol.Request, v interface{}) error {
 	// a streamed body of unknown length (chunked, on a server that streams request
-	// bodies) has no Content-Length but is a body all the same
-	if req.Header.ContentLength() <= 0 && !req.IsBodyStream() {
+	// bodies) has no Content-Length but is a body all the same, also after somebody
+	// has read it (Request.Body() drains the stream into the body buffer)
+	if req.Header.ContentLength() <= 0 && !req.IsBodyStream() && len(req.BodyBytes()) == 0 {
 		return nil
 	}
 	ct := bytesconv.B2s(req.Header.ContentType())
